@@ -573,7 +573,7 @@ func runC15(r *Run) int {
 	w.Merge()
 	r.Extra("table_snapshot_lines", strings.Count(snap0, "\n"))
 	// process-level: K children execute the same multiset in different orders / interleavings
-	monBin, _ := os.Executable()
+	monBin := childBinary()
 	K := r.Pick(6, 16)
 	nPairs := r.Pick(10000, 60000)
 	results := make([]map[int]uint64, K)
